@@ -36,6 +36,9 @@ func init() {
 			{ID: "C02.e", Title: "CACHE-AFTER-PUBLISH", Template: "T1+T4", MinInst: 2,
 				Rule: "functions that INSERT into the dedup cache are called only from the sequencing function, after the success edge of Upload(\"checkpoint\")",
 				Run:  c02e},
+			{ID: "C02.g", Title: "LEAF-FROM-CHAIN", Template: "T7+T6", MinInst: 5,
+				Rule: "the entry that is sequenced and signed is built from the validated chain: issuer key hash from chain[2] iff a precertificate signing certificate is present, TBS defanged with it, certificate/precertificate/issuers from the chain (as C09.d, C09.e)",
+				Run:  func(c *Ctx) { c09d(c); c09e(c) }},
 			{ID: "C02.f", Title: "SCT-FROM-SEQUENCED", Template: "T2+T6", MinInst: 5,
 				Rule: "in addChainOrPreChain the success return is guarded by the wait function's nil error; Timestamp, leaf-index extension and signed message derive from the one returned entry; ID is the log's ID and the key the log's key",
 				Run:  c02f},
